@@ -29,6 +29,11 @@ CLAIMED["C07"] = {
     "design_ref": "DESIGN.md section 5 C07",
     "technique": "Coq proof (inductive invariant over all interleavings) + correspondence of the protocol model with the real crate and handles",
 }
+CLAIMED["C15"] = {
+    "text": "Coq theorems over R (stdlib real axioms) about a model of SpatialData::spatialize written once over abstract scalars and reproducing glam 0.30's operation order: level = attenuation(distance) x per-ear gains; attenuation is a function of distance only, 1 within min, exactly 0 from max on, non-increasing for every monotone easing (libm monotonicity as a named hypothesis), total for empty/inverted ranges (F11 repaired); ear gains in [1-s, 1]; strength 0 passes the frame unpanned; side preference at or beyond the ear plane; mirror swap; full rigid-motion invariance; no listener => exact silence; distance-mapped parameters follow the distance; no division by zero at coincident points. The binary32 instance is compared bit-for-bit with a real AudioManager on generated positions/orientations/ranges/strengths/tweens/listener histories; relational monitors on the implementation. Known finding F22 (emitter inside the head). Partial: finiteness over all of binary32 by examples and monitors only; orientation slerp treated as observed input.",
+    "design_ref": "DESIGN.md section 5 C15",
+    "technique": "Coq proof over R of a scalar-generic model + bit-exact Flocq/vm_compute correspondence",
+}
 REASON_WIP = "check not built yet in this session (work in progress; planned per DESIGN.md section 5)"
 
 def main():
